@@ -324,7 +324,14 @@ def finishOp (s : St) : IO St := do
           let got := resClass s.opRes
           if got != want then
             let o := resField s.opRes 1
-            if got == "fail" && (o == "KeySendError" || o == "AmpError") then
+            -- known finding F-c15-replay-precheck, attributed only when the expiry pre-check of
+            -- processKeySend / processAMP is what fails: the feature is on, the replayed call
+            -- carries the keysend / AMP record, and expiry < uint32(height + reject delta).
+            let tooSoon := (n.exp : Int) < u32sum n.ht s.rejectDelta
+            let pre := tooSoon &&
+              ((o == "KeySendError" && s.cfg.acceptKeysend && n.ks != "none" && n.amp.isNone) ||
+               (o == "AmpError" && s.ampOn && n.amp.isSome))
+            if got == "fail" && pre then
               s ← monitor s "replay_precheck" s!"replayed htlc {n.key} recorded as {h.st} on invoice {d.hash} is answered {s.opRes} (spontaneous-payment pre-check runs before the replay check)"
             else
               s ← monitor s "replay_verdict" s!"replayed htlc {n.key} recorded as {h.st} on invoice {d.hash} is answered {s.opRes}"
